@@ -30,11 +30,12 @@ import (
 const rtPath = "github.com/freeconf/yang/zzverifrt"
 
 var (
-	siteSeq    int32
-	rangeSites []string // "id\tpkg.Func"
-	nYield     int
-	nRange     int
-	nMapKeys   int
+	siteSeq       int32
+	rangeSites    []string // "id\tpkg.Func"
+	nYield        int
+	nRange        int
+	nMapKeys      int
+	nUncontrolled int
 )
 
 func fatal(format string, a ...interface{}) {
@@ -366,33 +367,44 @@ func (in *inst) rangeRewrite(s ast.Stmt) ast.Stmt {
 	if r.Key == nil {
 		return s // "for range m": order-free
 	}
-	// only string-kinded keys occur today; refuse anything else loudly
+	// string-kinded keys (all there are in the unchanged tree) sort directly;
+	// any other key type goes through the generic entry point
+	entries := "MapEntries"
 	if b, ok := mt.Key().Underlying().(*types.Basic); !ok || b.Kind() != types.String {
-		fatal("%s: range over map with non-string key %s in %s: extend the instrumenter", in.file, mt.Key(), in.fn)
+		entries = "MapEntriesAny"
+		fmt.Fprintf(os.Stderr, "verif-instrument: note: %s: range over map with non-string key %s in %s\n", in.file, mt.Key(), in.fn)
 	}
-	// refuse bodies that add to the ranged map or delete a key other than the loop key
+	// A body that adds to the ranged map, or deletes a key other than the loop
+	// key, would behave differently over a snapshot: leave such a loop as it is
+	// (Go's own order, not the simulator's) and say so.
 	mapText := exprString(in.fset, r.X)
 	keyName := ""
 	if id, ok := r.Key.(*ast.Ident); ok {
 		keyName = id.Name
 	}
+	mutates := ""
 	ast.Inspect(r.Body, func(n ast.Node) bool {
 		switch x := n.(type) {
 		case *ast.AssignStmt:
 			for _, l := range x.Lhs {
 				if ix, ok := l.(*ast.IndexExpr); ok && exprString(in.fset, ix.X) == mapText {
-					fatal("%s: loop body in %s assigns into the ranged map %s: snapshot iteration would change semantics", in.file, in.fn, mapText)
+					mutates = "assigns into the ranged map"
 				}
 			}
 		case *ast.CallExpr:
 			if id, ok := x.Fun.(*ast.Ident); ok && id.Name == "delete" && len(x.Args) == 2 && exprString(in.fset, x.Args[0]) == mapText {
 				if k, ok := x.Args[1].(*ast.Ident); !ok || k.Name != keyName || keyName == "_" {
-					fatal("%s: loop body in %s deletes a key other than the loop key from %s", in.file, in.fn, mapText)
+					mutates = "deletes a key other than the loop key"
 				}
 			}
 		}
 		return true
 	})
+	if mutates != "" {
+		fmt.Fprintf(os.Stderr, "verif-instrument: note: %s: loop over %s in %s %s: left in Go's own iteration order (not controlled by the simulator)\n", in.file, mapText, in.fn, mutates)
+		nUncontrolled++
+		return s
+	}
 	nRange++
 	in.changed = true
 	id := in.site()
@@ -424,11 +436,11 @@ func (in *inst) rangeRewrite(s ast.Stmt) ast.Stmt {
 	}
 	body := &ast.BlockStmt{List: append(pre, r.Body.List...)}
 	if len(lhs) == 0 {
-		return &ast.RangeStmt{X: rtCall("MapEntries", r.X, id), Body: body}
+		return &ast.RangeStmt{X: rtCall(entries, r.X, id), Body: body}
 	}
 	return &ast.RangeStmt{
 		Key: ast.NewIdent("_"), Value: ast.NewIdent("zzE"), Tok: token.DEFINE,
-		X:    rtCall("MapEntries", r.X, id),
+		X:    rtCall(entries, r.X, id),
 		Body: body,
 	}
 }
